@@ -115,6 +115,76 @@ CHECKS.update({
     design="6/C16"),
 })
 
+CHECKS["C01"]["text"] = (
+    "Coq theorems: for every history of statements on a fresh database (any number of tables, rows, leaf/internal/root "
+    "splits, root moves of user tables and of both catalog trees), SELECT * of every user table computed by the model "
+    "through its own catalog trees, tuple codec and sibling-chain scans equals the plain table specification of the "
+    "acknowledged statements, with strictly increasing row ids (C01_refines_partial_all_succeed / _early; "
+    "C01_refines_partial_lax covers every history, allowing a failed statement to leave a row prefix). The full statement "
+    "as first written is refuted by a vm_compute witness (recorded finding F11a: a failing multi-row INSERT keeps earlier "
+    "rows). Tree-level core: insertion above the maximum appends exactly one cell through any splits, scans return the "
+    "live cells in order, no page shared. Tied to the code on every run: seeded histories on the real engine; after every "
+    "statement every table, sys_schema and every page (offset, LSN, dirty flag, sibling fields, cells) compared with the "
+    "model, tables judged by Spec/TableSpec.v.")
+CHECKS["C01"]["note"] = (
+    "Hypotheses of the refinement theorem: failing statements fail before changing anything (else the lax theorem "
+    "applies), column names of a table pairwise distinct (unproved region, no counterexample), values within int64 / "
+    "2^32 bytes, file below 2^63 bytes. Trusted: Coq kernel + vm_compute; hand-written model (Model/Tree.v, Store.v, "
+    "Engine.v, Tuple.v) tied to the Go code by correspondence; SQL text parsed by the real parser while the model receives "
+    "the intended statement tree (C10). Row ids are unbounded N in the model, uint32 in Go. No axioms.")
+CHECKS.update({
+ "C05": dict(
+    text="Coq theorems over the model of EvaluateSelect for one table: for all tables and well-typed queries the model's "
+         "result satisfies the declarative specification (filter by WHERE with AND under OR, projection with aliases and "
+         "expressions, lexicographic ORDER BY with ASC/DESC per key, OFFSET then LIMIT; insertion order without ORDER BY); "
+         "an executable result checker is proved sound and complete w.r.t. that specification, so Go's unstable sort.Slice "
+         "is judged without ever accepting a wrong answer. Correspondence: grammar-generated SQL text on a real database, "
+         "Go result vs model and vs checker.",
+    note="Trusted: Coq kernel + vm_compute; model Model/Select.v (every type assertion is a Panic branch); the statement tree "
+         "is what Go's parser produced (C10) and tables equal the inserted rows (C01); sort.Slice returns a permutation. No axioms.",
+    technique="Coq proof (model meets declarative spec; verified checker) + SQL-text correspondence", design="6/C05"),
+ "C06": dict(
+    text="Coq theorems: for any join tree of INNER/LEFT/RIGHT joins the nested-loop model returns, as a multiset, exactly the "
+         "matching pairs plus NULL-padded unmatched outer rows (JoinSpec); naming theorems (alias vs table name, self-join under "
+         "two aliases, ambiguous unqualified name rejected); verified checker. Correspondence on generated join queries "
+         "(duplicate and missing keys, chains, self-joins).",
+    note="Trusted as C05. Outside the property text and recorded as observation: a table joined to itself WITHOUT aliases "
+         "resolves qualified names to the left copy. No axioms.",
+    technique="Coq proof (induction on the join tree) + SQL-text correspondence", design="6/C06"),
+ "C07": dict(
+    text="Coq theorems over the aggregation model: one output row per class of equal grouping-value tuples (group key proved "
+         "injective), COUNT(*) and COUNT(col) exact, empty input gives one all-zero row, permutation invariance for queries "
+         "without AVG, AVG correct for groups of at most two rows. The full statement is refuted (C07_avg_refuted: AVG is a "
+         "running rounded average, [1,0,0] gives 1) - recorded finding F8b, printed as KNOWN-FINDING; everything else is "
+         "proved (C07_model_meets_spec_partial) and checked by a verified checker on Go's results.",
+    note="PARTIAL by the recorded finding (AVG over 3+ rows). float64 division + math.Round assumed to agree with exact "
+         "rounding below 2^52. Four further defects found while proving were repaired in /repo (fix: commits). No axioms.",
+    technique="Coq proof (spec refinement + refutation witness) + SQL-text correspondence", design="6/C07"),
+ "C08": dict(
+    text="Coq theorems: Tuple.Decode(Tuple.Encode(row)) = row for every schema with distinct column names and every row of "
+         "values that fit (INT 32-bit, BIGINT 64-bit, any byte strings incl. empty, booleans, NULL); a wrong type or an INT "
+         "outside 32 bits makes Encode fail with the error Validate decides; encoded length = the specification's row size, "
+         "rows over 400 bytes refused by insert and update with nothing changed; flush preserves every table. Correspondence: "
+         "boundary values supplied as direct statement values and as SQL text, read back at once / after flush with a "
+         "6-page cache / after restart, strict oracle (a refusal only where the property demands one); Tuple.Encode bytes "
+         "compared byte for byte.",
+    note="The restart part rests on C02's recovery theorem and the page round trip on C12. Negative numbers and quotes are not "
+         "expressible as SQL literals (direct values only). No axioms.",
+    technique="Coq proof (codec round trip, refusal, size law) + boundary-value correspondence", design="6/C08"),
+ "C14": dict(
+    text="Coq theorems: a statement that fails before its first page change (unknown table, duplicate table, column count / "
+         "type / range / size error in the first row, SET from a column, unevaluable WHERE) leaves pages, catalog and every "
+         "table unchanged; nothing of a failed statement reaches the log, so after a crash its effects are gone "
+         "(C14_failed_gone_after_crash); the full statement is refuted by three vm_compute witnesses (recorded findings "
+         "F11a-c) and C14_partial_prefix proves that what a failing statement leaves behind is always a row-operation prefix "
+         "of it. Correspondence: every error kind with the invalid row at every position k, tables before / after / after "
+         "restart.",
+    note="PARTIAL by the recorded findings F11a-c (failing multi-row INSERT / UPDATE / CREATE TABLE keep a prefix): printed as "
+         "KNOWN-FINDING with replayed witnesses; any other change by a failing statement is a violation. No axioms.",
+    technique="Coq proof (atomicity of early failures, refutation witnesses, prefix theorem) + failing-statement correspondence",
+    design="6/C14"),
+})
+
 NOT_YET = {
 }
 
